@@ -25,6 +25,10 @@ func (v verifLeaderCoord) readPartitions(topics ...string) ([]Partition, error) 
 func VerifAssignTopicPartitions(balancers []GroupBalancer, protocol string, members []GroupMember,
 	read func(topics ...string) ([]Partition, error)) (GroupMemberAssignments, error) {
 	cg := &ConsumerGroup{config: ConsumerGroupConfig{ID: "verif-c14", GroupBalancers: balancers}}
+	if len(members) > 0 {
+		// as in production, the leader's own configuration names its own subscription
+		cg.config.Topics = members[0].Topics
+	}
 	resp := joinGroupResponse{GenerationID: 1, GroupProtocol: protocol}
 	for i, m := range members {
 		if i == 0 {
